@@ -637,6 +637,10 @@ func (e *Evaluator) evalBinaryExpr(expr *ExprBinary) (*Cell, error) {
 		if member == nil {
 			// speculatively create members
 			// see createSpeculativeObjects
+			if right.Value.Tag != ValueNum && right.Value.Tag != ValueStr {
+				// the same rule as for a member of an object that exists
+				return nil, e.error(expr.Left.Token(), fmt.Sprintf("members can only be named by numbers or strings, got %s", right.Value.Tag))
+			}
 			memberVal := NewValue(nil)
 			if right.Value.Tag == ValueNum {
 				memberVal.Num = right.Value.Num
